@@ -154,6 +154,9 @@ func genBatch(r *RNG, withBad bool, maxLines int) *Scenario {
 			if r.Bool(0.4) {
 				bl.Extra = append(bl.Extra, "fileExtension=alt")
 			}
+			if r.Bool(0.3) {
+				bl.Extra = append(bl.Extra, "soilId=9A1")
+			}
 		}
 		if r.Bool(0.25) && len(sc.Lines) > 0 {
 			// repeated line (same arguments, distinct output id)
